@@ -1,3 +1,5 @@
 pub mod c01;
 pub mod c02;
 pub mod c10;
+pub mod c11;
+pub mod c12;
